@@ -23,7 +23,7 @@ RULE = ("case = one transfer (direction, API path, payload length, size declared
         "in thorough; cases run back-to-back on one client in shuffled order (history). Signature = (direction, path, "
         "length class relative to 4 / 7k boundaries, declared, forced, buffering, chunk class, server style); non-trivial = "
         "at least one segment frame or a boundary length (0, 4, 5, 7k, 7k+-1).")
-RULE += (" " + "Widened later: servers that fill upload segments partly or not at all (segment_fill patterns), every third history on a buffer-reusing back end, declared DOMAIN/OCTET_STRING entries under all response styles with values ending in zero bytes, and an 'abandoned transfer' family (time-out at every step of all six transfer kinds, SdoClient.abort()) in which every client abort frame is judged as a request frame (8 bytes, multiplexer of the transfer).")
+RULE += (" " + "Widened later: servers that fill upload segments partly or not at all (segment_fill patterns), every third history on a buffer-reusing back end, declared DOMAIN/OCTET_STRING entries under all response styles with values ending in zero bytes, and an 'abandoned transfer' family (time-out at every step of all six transfer kinds, SdoClient.abort()) in which every client abort frame is judged as a request frame (8 bytes, multiplexer of the transfer); uploads of array members (sub-indexes 1, 2, 127, 254, 255 of arrays listing only their first member) are truncated to the element type like declared variables.")
 ASSUMPTIONS = ["reference server transcribed from CiA 301 7.2.4; it accepts short non-final segments (legal)",
                "raw (buffering=0) expedited writes are offered whole payloads (API design: a short write returns 0)",
                "declared size always equals the bytes written (anything else is a caller error)"]
@@ -164,7 +164,7 @@ def cases(desc):
                 # the declared DOMAIN / OCTET_STRING entries of the client's dictionary (top level and record member)
                 c["mux"] = list(rng.choice([(gen.TYPE_INDEX_BASE + R.DOMAIN, 0), (gen.TYPE_INDEX_BASE + R.OCTET_STRING, 0),
                                             (0x2100, list(R.NAMES).index(R.DOMAIN) + 1)]))
-            while 0x2001 <= c["mux"][0] <= 0x21FF and v["path"] != "variable":
+            while 0x2001 <= c["mux"][0] <= 0x22FF and v["path"] != "variable":
                 # these indexes are declared (typed) in the client's dictionary: uploads there are truncated to the
                 # declared width, which is what the "upload-declared" path checks on purpose
                 c["mux"][0] = rng.randint(1, 0xFFFF)
@@ -276,8 +276,21 @@ def run(ctx, desc):
         ctx.seen("protocol_steps", s)
 
 
+ARRAY_BASE = 0x2200          # one array per fixed-size type; only sub-index 1 is listed, the other members follow its declaration
+ARRAY_SUBS = (1, 2, 127, 254, 255)
+
+
+def typed_arrays():
+    out = []
+    for dt in list(R.NUMERIC) + [R.BOOLEAN]:
+        members = [gen.variable("Number of entries", ARRAY_BASE + dt, 0, R.UNSIGNED8, "ro", default=255),
+                   gen.variable(f"A_{R.NAMES[dt]}", ARRAY_BASE + dt, 1, dt)]
+        out.append(gen.record(f"Array of {R.NAMES[dt]}", ARRAY_BASE + dt, members, array=True))
+    return out
+
+
 def make_rig(via="listener"):
-    od = gen.typed_od(rpdos=(), tpdos=())
+    od = gen.typed_od(rpdos=(), tpdos=(), extra=typed_arrays())
     return rigs.ClientRig(node_id=5, od=od, via=via)
 
 
@@ -388,6 +401,9 @@ def do_upload_setup(rig, c, index, sub):
         dts = [dt for dt in R.NUMERIC] + [R.BOOLEAN]
         dt = dts[c["seed"] % len(dts)]
         index, sub = gen.TYPE_INDEX_BASE + dt, 0
+        if (c["seed"] >> 8) % 3 == 0:
+            # a member of an array of that type: every sub-index 1..255 is declared by the array's element type
+            index, sub = ARRAY_BASE + dt, ARRAY_SUBS[(c["seed"] >> 12) % len(ARRAY_SUBS)]
         c["mux"] = [index, sub]
         value = payload(n, c["seed"])
         srv.store[(index, sub)] = value
